@@ -17,7 +17,7 @@ pub fn prop() -> Prop {
         max_len: 300,
         quick: 6_000,
         thorough: 60_000,
-        rule: "choice sequence -> envelope (wrapped-and-encrypted, or subject-encrypted with its assertions left in place) x 32-byte content key x SSKR policy (1-3 groups, 1-4 members each, member threshold 1..count, group threshold 1..groups; thorough: up to 4 groups / 5 members, at most 12 shares) x split through sskr_split_using with a seeded RNG x EVERY non-empty subset of the shares (exhaustive per policy, <= 4095, in generated order); plus subsets mixed from two different splits (another key, or the same envelope split twice). oracle: quorum(model) = #{groups with >= member-threshold shares present} >= group threshold; sskr_join(subset) is Ok iff quorum and then byte-identical to the decrypted original subject; otherwise Err; never a panic; mixed subsets: Err or the original of one of the two splits; every share envelope has an encrypted subject with the original subject's digest and exactly one extra 'sskrShare' assertion. non-trivial: a policy with >= 1 subset exactly at the quorum boundary and one just below it; distinct by FNV-64 of (encoding, policy); share envelopes as holders keep them: merged into one, merged in pairs, 'sskrShare' assertions salted or annotated - outcome = quorum rule over the shares present; sskr_split / sskr_split_flattened follow the policy; a damaged share object gives an error or the original, never a panic; a forged encrypted subject (other content under the declared digest) never joins to that content",
+        rule: "choice sequence -> envelope (wrapped-and-encrypted, or subject-encrypted with its assertions left in place) x 32-byte content key x SSKR policy (1-3 groups, 1-4 members each, member threshold 1..count, group threshold 1..groups; thorough: up to 4 groups / 5 members, at most 12 shares) x split through sskr_split_using with a seeded RNG x EVERY non-empty subset of the shares (exhaustive per policy, <= 4095, in generated order); plus subsets mixed from two different splits (another key, or the same envelope split twice). oracle: quorum(model) = #{groups with >= member-threshold shares present} >= group threshold; sskr_join(subset) is Ok iff quorum and then byte-identical to the decrypted original subject; otherwise Err; never a panic; mixed subsets: Err or the original of one of the two splits; every share envelope has an encrypted subject with the original subject's digest and exactly one extra 'sskrShare' assertion. non-trivial: a policy with >= 1 subset exactly at the quorum boundary and one just below it; distinct by FNV-64 of (encoding, policy); share envelopes as holders keep them: merged into one, merged in pairs, 'sskrShare' assertions salted or annotated - outcome = quorum rule over the shares present; sskr_split / sskr_split_flattened follow the policy; a damaged share object gives an error or the original, never a panic; a forged encrypted subject (other content under the declared digest) never joins to that content; truncated share objects; later share envelopes with their subject elided",
         assumptions: &["exhaustive: true refers to the subset enumeration per generated policy, not to policies or envelopes", "bc-shamir / sskr split is correct for the shares themselves"],
         extra: None,
     }
